@@ -95,6 +95,9 @@ def adversarial():
     # drop immediately after create; equal rules share a subscription until the last is dropped
     out.append({"kind": "streams", "steps": [["sub", 1, "A", 2], ["sub", 2, "A", 2], ["quiesce"], ["dropstream", 1], ["signal", "A", 1], ["quiesce"],
                                              ["sub", 3, "A", 2], ["dropstream", 3], ["signal", "A", 2], ["allcredit"], ["quiesce"], ["dropstream", 2], ["signal", "A", 3], ["quiesce"]]})
+    # release one of two equal streams through AsyncDrop: the other must go on
+    out.append({"kind": "streams", "steps": [["sub", 1, "A", 2], ["sub", 2, "A", 2], ["sub", 3, "B", 2], ["quiesce"], ["asyncdrop", 1], ["quiesce"], ["signal", "A", 1], ["signal", "B", 2],
+                                             ["allcredit"], ["quiesce"], ["asyncdrop", 2], ["quiesce"], ["signal", "A", 3], ["signal", "B", 4], ["quiesce"]]})
     # clone, then drop the clone: the original must go on
     out.append({"kind": "streams", "steps": [["sub", 1, "A", 2], ["quiesce"], ["clone", 1, 2], ["signal", "A", 1], ["allcredit"], ["quiesce"],
                                              ["dropstream", 2], ["quiesce"], ["signal", "A", 2], ["quiesce"]]})
@@ -160,7 +163,7 @@ def random_scenario(rnd, kind):
             elif r < 0.72 and live:
                 s = rnd.choice(live)
                 live.remove(s)
-                steps.append(["dropstream", s])
+                steps.append([rnd.choice(["dropstream", "dropstream", "asyncdrop"]), s])
             elif r < 0.9:
                 steps.append(rnd.choice([["tick"], ["ticks"], ["quiesce"]]))
             else:
